@@ -1,5 +1,6 @@
 // C16 - SYNC is recognised and produced exactly as 1005h/1006h say (DESIGN.md §5 C16)
 #include "model/node.h"
+namespace vf { void c16_case(Ctx &c); }
 using namespace vf;
 
 namespace {
@@ -143,6 +144,10 @@ void case_impl(Ctx &c, bool late, bool many = false) {
 }
 
 void one_case(Ctx &c) { case_impl(c, false); }
+}  // namespace
+// also run as a mode of C04: 0609 0030h for 1005h/1006h is a 'value rejected by the object's type', and a refused request changes nothing - not the running producer either
+void vf::c16_case(Ctx &c) { case_impl(c, false); }
+namespace {
 void late_case(Ctx &c) { case_impl(c, true); }
 void many_case(Ctx &c) { case_impl(c, false, true); }
 
